@@ -10,12 +10,21 @@ from .common import Corr, f2hex, hex2f, frac2s, flist, parse_list
 
 ID = "C16"
 LEAN_MODULES = ["TempestVerif.Props.C16"]
-RULE = ("generated points (d=1..5, 1-D and 2-D arrays) x index subsets for periodic/reflective (incl. empty, None, all, duplicates); "
+RULE = ("generated points (d=1..5, 1-D and 2-D arrays) x index lists for periodic/reflective (empty, None, all, duplicates in either list, "
+        "reversed order, and - in ~12% of the cases - an index in BOTH lists, which the functions accept although SamplerConfig rejects it); "
         "regime Q: dyadic rationals whose float image is exact, compared exactly with the Rat model; "
-        "regime F: adversarial doubles (signed zeros, subnormals, neighbours of integers, 2^52..2^64, 1e300, random bit patterns) "
-        "compared bit-for-bit with the Float model. Non-trivial = some designated coordinate lies outside [0,1).")
+        "regime F: adversarial doubles (signed zeros, subnormals, neighbours of integers, tiny negatives that wrap to exactly 1.0, "
+        "2^52..2^64, 1e300, random bit patterns) compared bit-for-bit with the Float model. "
+        "Suite property-F runs the property's own exact oracle (untouched bits, range, exact fold within 2^-52, idempotence "
+        "identifying the periodic end points, bounds check = all remaining coordinates in [0,1]) on the REAL code for every regime-F case. "
+        "Non-trivial = some designated coordinate lies outside [0,1).")
 MODELLED = ["numpy float remainder `x % 1.0` is modelled as x - floor x (identical for every finite double; checked bit-for-bit here)",
-            "NaN / +-inf inputs are outside the statement and not generated"]
+            "NaN / +-inf inputs are outside the statement and not generated",
+            "H_round (used only by the C16_round_* theorems): binary64 subtraction is the exact difference followed by a monotone, "
+            "idempotent rounding that fixes 0 and 1; np.floor and the parity test np.mod(n, 2.0) == 0 are exact on finite doubles "
+            "(Lemmas/ScRound.lean `Rounding`; not discharged by a proof about IEEE-754 - the bit-exact suite and property-F check its consequences)",
+            "the passage from the one-coordinate pushforward identity (C16_periodic_pushforward / C16_reflective_pushforward, proved) to the "
+            "d-dimensional one is not proved: on the whole vector only the symmetry of the preimage sum Kvec is (C16_fold_vector_symmetric)"]
 ASSUMPTIONS = ["index lists contain valid non-negative indices (SamplerConfig.validate enforces 0 <= i < n_dim)"]
 
 
@@ -44,6 +53,8 @@ def adversarial():
         for e in (52, 53, 62, 63, 64, 100):
             b = 2.0 ** e
             xs += [b, -b, b + 1.0, b - 1.0, -(b - 1.0), math.nextafter(b, 0.0), math.nextafter(b, math.inf), b + 2.0 ** (e - 51)]
+        # tiny negatives: x % 1.0 == 1.0 exactly (the periodic end point the statement identifies with 0)
+        xs += [-2.0 ** -60, -2.0 ** -54, -1e-17, -1e-30, -1e-20, -1e-200]
         xs += [1e300, -1e300, 1.7976931348623157e308, -1.7976931348623157e308, 4503599627370497.5, -4503599627370495.5,
                2.0 ** 51 + 0.5, -(2.0 ** 51 + 1.5), 9007199254740993.0, 1e16 + 2, 3.0000000000000004, 1.9999999999999998]
         ADVERSARIAL = xs
@@ -87,6 +98,10 @@ def _subsets(rng, d):
         per = per + per[:1]       # duplicate entry
     if rng.random() < 0.1:
         refl = list(reversed(refl))
+    if rng.random() < 0.08:
+        refl = refl + refl[-1:]   # duplicate entry in the reflective list
+    if rng.random() < 0.12 and per:
+        refl = refl + [rng.choice(per)]   # an index in both lists (wrapped first, then reflected)
     pr = per if (per or rng.random() < 0.5) else None
     rr = refl if (refl or rng.random() < 0.5) else None
     return pr, rr
@@ -104,7 +119,7 @@ def correspond(tier):
     for regime in ("Q", "F"):
         rng = common.rng_for("C16." + regime)
         c = Corr(f"boundary-{regime}", {"Q": "exact-dyadic (Rat model)", "F": "bit-exact (Float model)"}[regime])
-        lines, cases = [], []
+        lines, cases, prop_cases = [], [], []
         for _ in range(n):
             d = rng.randint(1, 5)
             rows = 1 if rng.random() < 0.6 else rng.randint(2, 4)
@@ -128,6 +143,17 @@ def correspond(tier):
             c.count("rows", rows)
             c.count("2d" if rows > 1 else "1d")
             c.count("all_special" if set(range(d)) <= set(per or []) | set(refl or []) else "has_strict")
+            c.count(f"d={d}")
+            if per is None:
+                c.count("per_None")
+            if refl is None:
+                c.count("refl_None")
+            if set(per or []) & set(refl or []):
+                c.count("index_in_both_lists")
+            if len(set(per or [])) < len(per or []) or len(set(refl or [])) < len(refl or []):
+                c.count("duplicate_index")
+            if regime == "F":
+                prop_cases.append((per, refl, fl))
         res = drv.batch(lines)
         for (per, refl, pt, impl_v, icb0, icb1), line, ans in zip(cases, lines, res):
             toks = ans.split(" ")
@@ -148,7 +174,36 @@ def correspond(tier):
             c.count("check_true" if icb0 else "check_false")
             c.sample({"op": line, "impl": impl_s, "model": ans})
         out.append(c)
+        if regime == "F":
+            out.append(_property_suite(prop_cases))
     return out
+
+
+def _property_suite(prop_cases):
+    """the property's own oracle on the real code, for every regime-F case (exact; cannot fire on correct code)"""
+    c = Corr("property-F", "exact oracle on the real code (no model involved)")
+    for per, refl, fl in prop_cases:
+        per_s, refl_s = set(per or []), set(refl or [])
+        bad = None
+        for row in fl:
+            msg = oracle(per, refl, row)
+            if msg and bad is None:
+                bad = (row, msg)
+            # end-point statistics (what the clause "identifying the periodic end points" is about)
+            _, v, _, _ = _impl(per, refl, row)
+            _, v2, _, _ = _impl(per, refl, v.tolist())
+            for i, (y, z) in enumerate(zip(v.tolist(), v2.tolist())):
+                if i in per_s and y == 1.0:
+                    c.count("periodic_hits_one")
+                if y != z:
+                    c.count("second_application_1_to_0")
+                if i in refl_s and i not in per_s and y in (0.0, 1.0):
+                    c.count("reflective_end_point")
+        c.case((per, refl, [[f2hex(x) for x in row] for row in fl]), _nontrivial(per, refl, fl))
+        if bad:
+            c.disagree(input=str((per, refl)), impl=bad[1], model="property oracle",
+                       point=[float(x) for x in bad[0]], per=per, refl=refl)
+    return c
 
 
 # ------------------------------------------------------------------ property oracle on the real code
@@ -175,8 +230,9 @@ def oracle(per, refl, pt):
         if i in refl_s:
             want = _tri(want if want is not None else q)
         err = abs(Fraction(y) - want)
-        # identify the periodic end points 0 and 1
-        if i in per_s and i not in refl_s:
+        # identify the periodic end points 0 and 1 (also when the index is, additionally, reflective:
+        # a wrap that rounds to exactly 1.0 may be wrapped again to 0.0 by a duplicate entry before the reflection)
+        if i in per_s:
             err = min(err, abs(Fraction(y) - want - 1), abs(Fraction(y) - want + 1))
         if err > Fraction(1, 2 ** 52):
             return f"coordinate {i}: {x!r} -> {y!r}, exact fold is {float(want)!r}"
